@@ -243,10 +243,21 @@ def rule_broadcast(ctx, rule='R13.b'):
         for kind in ('MatrixArray', 'ndarray'):
             n += 1
             try:
-                ip = _ip(ctx.prog)
-                a1 = W.matrixarray(ip, 'A1', 'NonSpatial', origin='self', kind='mat1')
-                other, oterm = [(o, t) for k, o, t in _others(ip) if k == kind][0]
-                res = _call(ip, a1, name, [other])
+                from ..interp import explore
+
+                def run_b(preset, name=name, kind=kind):
+                    ip_ = _ip(ctx.prog)
+                    ip_.preset = list(preset)
+                    ip_.strict_asserts = True        # an assertion that holds only for some lengths is a refusal for the others
+                    a1_ = W.matrixarray(ip_, 'A1', 'NonSpatial', origin='self', kind='mat1')
+                    other_, oterm_ = [(o, t) for k, o, t in _others(ip_) if k == kind][0]
+                    return ip_, (_call(ip_, a1_, name, [other_]), oterm_)
+                worlds_b = explore(run_b, keep_raised=True)
+                refused = [(d_, r_) for d_, ip_, r_ in worlds_b if ip_ is None]
+                if refused:
+                    d_, r_ = refused[0]
+                    raise Raised(r_.exc, (r_.msg or '') + ' [on the path where the decisions are %s]' % (d_,), r_.loc)
+                ip, (res, oterm) = [(ip_, r_) for d_, ip_, r_ in worlds_b if ip_ is not None][0]
                 t = W.attr_term(ip, res.attrs.get('data')) if isinstance(res, Obj) else None
                 want = build(N.sym('A1'), oterm)
                 if t is None or P.is_pw(t) or not t.equals(want):
@@ -426,6 +437,27 @@ def rule_unknown_names(ctx, rule='R13.u'):
                                   'an unknown type name in position %d raises %s, not ValueError' % (pos, e.exc))
             except Unsupported as e:
                 ctx.undecided(rule, construct, str(e))
+    # an integer that is not one of the types is an unknown name as well (M[0,'A'] on types A,B,C), executed on the real class
+    try:
+        ip = Interp(ctx.prog)
+        ip.declare('L', integer=True)
+        cls = ctx.prog.cls(MA)
+        o = ip.construct(cls, [], {'length': Num(N.sym('L')), 'rank': const_num(3), 'types': Seq([Const(x) for x in 'ABC'], 'list')})
+        for pos in (0, 1):
+            key = [Const('A'), Const('A')]
+            key[pos] = const_num(0)
+            try:
+                _call(ip, o, '__getitem__', [Seq(key)])
+                ctx.violation(rule, MA + '.__getitem__', 'unknown-int:%d' % pos, 'M[...] with the integer 0 in position %d (not a type of '
+                              'the array) does not raise ValueError: positions are accepted as if they were type names' % pos)
+            except Raised as e:
+                if e.exc != 'ValueError':
+                    ctx.violation(rule, MA + '.__getitem__', 'unknown-int:%d' % pos, 'an integer that is not a type raises %s' % e.exc)
+                else:
+                    ctx.holds(rule, MA + '.__getitem__', 'integer that is not a type in position %d -> ValueError' % pos,
+                              key='unknown-int%d' % pos, nontrivial=False)
+    except Unsupported as e:
+        ctx.undecided(rule, MA + '.__getitem__', 'integer key: %s' % e)
     ctx.floor(rule, n, 4, 'KeyError->ValueError conversion sites')
 
 
@@ -649,7 +681,8 @@ def rule_typemap(ctx, rule='R13.t'):
         ip = Interp(ctx.prog)
         ip.declare('L', integer=True)
         made = []
-        for order in (('A', 'B'), ('B', 'A'), ('A', 'B', 'C')):
+        # string labels in several orders, and integer labels that differ from their positions (any hashable is a type)
+        for order in (('A', 'B'), ('B', 'A'), ('A', 'B', 'C'), (1, 2, 3), (2, 1)):
             o = ip.construct(cls, [], {'length': Num(N.sym('L')), 'rank': const_num(len(order)),
                                        'types': Seq([Const(x) for x in order], 'list')})
             made.append((order, o))
@@ -669,13 +702,13 @@ def rule_typemap(ctx, rule='R13.t'):
                 for j, b in enumerate(order):
                     if i > j:
                         continue
-                    name = 'w_%s_%s%s' % (''.join(order), a, b)
+                    name = 'w_%s_%s%s' % (''.join(map(str, order)), a, b)
                     ip.declare(name, 'curve')
                     ip.call(setter, [Seq([Const(a), Const(b)]), Arr(N.sym(name), None, ip)], {})
             for i, a in enumerate(order):
                 for j, b in enumerate(order):
                     lo, hi = (a, b) if i <= j else (b, a)
-                    want = N.sym('w_%s_%s%s' % (''.join(order), lo, hi))
+                    want = N.sym('w_%s_%s%s' % (''.join(map(str, order)), lo, hi))
                     got = ip.read_cell(data, i, j)
                     if P.is_pw(got) or not got.equals(want):
                         bad.append('array with types %s (others with permuted types exist): position [%d,%d] holds %s after '
